@@ -245,6 +245,32 @@ struct ReplyStats {
     log: Vec<String>,
 }
 
+/// Free-text of an error reply as a remote node may word it: empty, short, long ASCII, long runs of 2-, 3- and
+/// 4-byte UTF-8 characters behind 0..3 ASCII bytes (so that every byte offset falls inside a character for
+/// some reply), and bytes that are no UTF-8 at all.
+fn hostile_text(rng: &mut Rng) -> Vec<u8> {
+    match rng.usize(6) {
+        0 => vec![],
+        1 => b"no".to_vec(),
+        2 => vec![b'a'; 1 + rng.usize(1400)],
+        3 | 4 => {
+            let ch = *rng.pick(&["\u{e9}", "\u{20ac}", "\u{1f600}", "\u{4e2d}"]);
+            let mut v = vec![b'x'; rng.usize(4)];
+            let total = 40 + rng.usize(600);
+            while v.len() < total {
+                v.extend_from_slice(ch.as_bytes());
+            }
+            v
+        }
+        _ => rng.blob(1, 300),
+    }
+}
+
+fn error_text(t: &[u8], code: i128, rng: &mut Rng, plain: &str) -> B {
+    let msg = if rng.bool() { hostile_text(rng) } else { plain.as_bytes().to_vec() };
+    B::dict(vec![("t", B::bytes(t)), ("y", B::str("e")), ("e", B::List(vec![B::Int(code), B::Bytes(msg)]))])
+}
+
 fn hostile_reply_scenario(r: &mut Report, seed: u64, call: Call, sync_flavour: bool, put_mode: usize) {
     r.eval();
     let mut rng = Rng::new(seed);
@@ -271,14 +297,14 @@ fn hostile_reply_scenario(r: &mut Report, seed: u64, call: Call, sync_flavour: b
             st.puts_answered += 1;
             match put_mode {
                 // every store request refused with one 3xx code / one other code
-                0 => error(&q.t, 301, "cas mismatch").encode(),
-                1 => error(&q.t, 302, "sequence number less than current").encode(),
-                2 => error(&q.t, *rrng.pick(&CODES), "whatever").encode(),
+                0 => error_text(&q.t, 301, &mut rrng, "cas mismatch").encode(),
+                1 => error_text(&q.t, 302, &mut rrng, "sequence number less than current").encode(),
+                2 => { let c = *rrng.pick(&CODES); error_text(&q.t, c, &mut rrng, "whatever") }.encode(),
                 3 => {
                     // mixed: acks, errors, unexpected response kinds, mutations
                     match rrng.usize(4) {
                         0 => response(&q.t, B::dict(vec![("id", B::bytes(&me))]), Some(&d.from), Some(&VERSION_RS6)).encode(),
-                        1 => error(&q.t, *rrng.pick(&CODES), "x").encode(),
+                        1 => { let c = *rrng.pick(&CODES); error_text(&q.t, c, &mut rrng, "x") }.encode(),
                         2 => { let k = rrng.usize(8); response_of_kind(&mut rrng, k, &q.t, &ends2, &me, &d.from) }.encode(),
                         _ => {
                             let base = { let k = rrng.usize(8); response_of_kind(&mut rrng, k, &q.t, &ends2, &me, &d.from) }.encode();
@@ -286,7 +312,7 @@ fn hostile_reply_scenario(r: &mut Report, seed: u64, call: Call, sync_flavour: b
                         }
                     }
                 }
-                _ => error(&q.t, 203, "bad token").encode(),
+                _ => error_text(&q.t, 203, &mut rrng, "bad token").encode(),
             }
         } else {
             st.lookups_answered += 1;
@@ -303,7 +329,7 @@ fn hostile_reply_scenario(r: &mut Report, seed: u64, call: Call, sync_flavour: b
             } else {
                 match rrng.usize(4) {
                     0 => { let k = rrng.usize(8); response_of_kind(&mut rrng, k, &q.t, &ends2, &me, &d.from) }.encode(),
-                    1 => error(&q.t, *rrng.pick(&CODES), "no").encode(),
+                    1 => { let c = *rrng.pick(&CODES); error_text(&q.t, c, &mut rrng, "no") }.encode(),
                     2 => {
                         let mut v = Vec::new();
                         structured(&response_of_kind(&mut rrng, honest_kind, &q.t, &ends2, &me, &d.from), &mut rrng, &mut v);
